@@ -480,6 +480,14 @@ class Registration(Endpoint):
         _context.cdb[client_id] = _cinfo
         _stub = _cinfo
 
+        # What the key jar holds under this id belongs to the registration that is being replaced
+        # (or to a client that had the id before): it goes, and comes back if this one is refused.
+        _keyjar = self.upstream_get("attribute", "keyjar")
+        _old_keys = None
+        if _keyjar is not None and client_id in _keyjar:
+            _old_keys = _keyjar[client_id]
+            del _keyjar[client_id]
+
         def _rollback():
             # A refused registration leaves nothing behind
             if _had_previous:
@@ -489,10 +497,11 @@ class Registration(Endpoint):
             _rat = _stub.get("registration_access_token")
             if _rat in _context.registration_access_token:
                 del _context.registration_access_token[_rat]
-            if not _had_previous:
-                _kj = self.upstream_get("attribute", "keyjar")
-                if _kj is not None and client_id in _kj:
-                    del _kj[client_id]
+            if _keyjar is not None:
+                if client_id in _keyjar:
+                    del _keyjar[client_id]
+                if _old_keys is not None:
+                    _keyjar[client_id] = _old_keys
 
         try:
             _cinfo = self.do_client_registration(
